@@ -72,9 +72,18 @@ type verifPending struct {
 	lastOutAt time.Time
 	hasOut    bool
 	outNonce  uint32
+	staleTok  []byte // token of an earlier, no longer pending Interest of the same PIT entry: if the forwarder has not yet
+	// reaped that entry this Interest joined it and is reachable through the old token; allowed, not required
+	maybe     bool // the forwarder may have dropped this Interest (its nonce may be on the dead nonce list): nothing is required or forbidden for it
+}
+
+type verifSentNonce struct {
+	name  enc.Name
+	nonce uint32
 }
 
 type verifRig struct {
+	sentNonces []verifSentNonce // (name, nonce) of every Interest forwarded upstream: candidates for the dead nonce list
 	check     string
 	th        *Thread
 	faces     []*verifFace
@@ -83,6 +92,7 @@ type verifRig struct {
 	routes    []verifRigRoute
 	multicast bool
 	cacheOn   bool
+	lite      bool
 	cached    []enc.Name
 }
 
@@ -117,7 +127,10 @@ func verifIsLocalhost(n enc.Name) bool {
 func verifNewRig(allowLocalhost bool, check string) *verifRig {
 	r := &verifRig{check: check}
 	cfg := core.DefaultConfig()
-	r.cacheOn = verifBool("cache")
+	r.lite = verifParam("lite", 0) != 0
+	if !r.lite {
+		r.cacheOn = verifBool("cache")
+	}
 	cfg.Tables.ContentStore.Admit = r.cacheOn
 	cfg.Tables.ContentStore.Serve = r.cacheOn
 	cfg.Tables.ContentStore.Capacity = 8
@@ -125,7 +138,9 @@ func verifNewRig(allowLocalhost bool, check string) *verifRig {
 	table.Configure()
 	Configure()
 	table.CreateFIBTable("nametree")
-	r.multicast = verifBool("multicast")
+	if !r.lite {
+		r.multicast = verifBool("multicast")
+	}
 	if r.multicast {
 		s, _ := enc.NameFromStr("/localhost/nfd/strategy/multicast/v=1")
 		table.FibStrategyTable.SetStrategyEnc(enc.Name{}, s)
@@ -141,9 +156,17 @@ func verifNewRig(allowLocalhost bool, check string) *verifRig {
 		dispatch.AddFace(f.id, f)
 	}
 	// FIB: up to `routes` next hops through the real API
-	nr := verifChoice("nroutes", verifParam("routes", 2)+1)
+	nr := 1
+	if !r.lite {
+		nr = verifChoice("nroutes", verifParam("routes", 2)+1)
+	}
 	for i := 0; i < nr; i++ {
-		rt := verifRigRoute{prefix: verifRigName("rp", 0, verifParam("rdepth", 1), allowLocalhost), face: uint64(1 + verifChoice("rface", nf)), cost: verifRange("rcost", 0, 10)}
+		var rt verifRigRoute
+		if r.lite { // one default route to the last face
+			rt = verifRigRoute{prefix: enc.Name{}, face: uint64(nf), cost: 1}
+		} else {
+			rt = verifRigRoute{prefix: verifRigName("rp", 0, verifParam("rdepth", 1), allowLocalhost), face: uint64(1 + verifChoice("rface", nf)), cost: verifRange("rcost", 0, 10)}
+		}
 		table.FibStrategyTable.InsertNextHopEnc(rt.prefix, rt.face, rt.cost)
 		dup := false
 		for k := range r.routes {
@@ -212,9 +235,13 @@ func (r *verifRig) genInterest(allowLocalhost bool) verifInterestIn {
 	in.lifetime = time.Duration(verifRange("lifetime", 1, 4000)) * time.Millisecond
 	switch r.check {
 	case "C01":
-		in.mbf = verifBool("mbf")
-		if verifBool("hastok") {
+		if r.lite {
 			in.tok = verifBytesN("dtok", 2)
+		} else {
+			in.mbf = verifBool("mbf")
+			if verifBool("hastok") {
+				in.tok = verifBytesN("dtok", 2)
+			}
 		}
 	case "C09":
 		if verifParam("nhfi", 0) != 0 && verifBool("nhfi") {
@@ -288,6 +315,19 @@ func (r *verifRig) interest(in verifInterestIn, check string) {
 			nInterests++
 		}
 	}
+	// An Interest forwarded earlier under this name and nonce may by now be on the dead nonce list (its PIT entry
+	// expired or was satisfied); the forwarder then drops the newcomer.  The model does not predict which.
+	maybeDead := false
+	if in.hasNonce && nInterests == 0 {
+		for _, sn := range r.sentNonces {
+			if sn.nonce == in.nonce && sn.name.Equal(in.name) {
+				maybeDead = true
+			}
+		}
+	}
+	if nInterests > 0 {
+		r.sentNonces = append(r.sentNonces, verifSentNonce{in.name, in.nonce})
+	}
 	if dropped {
 		if check == "C02" {
 			verifAssert(nInterests == 0, "C02/dropped-interest-is-not-forwarded")
@@ -335,10 +375,23 @@ func (r *verifRig) interest(in verifInterestIn, check string) {
 	retransmission := mine != nil
 	if mine == nil {
 		mine = &verifPending{name: in.name, cbp: in.cbp, mbf: in.mbf, face: in.face, downTok: in.tok, live: true}
+		for _, p := range entryLive { // the PIT token and the out-records belong to the entry, which this Interest joins
+			mine.upToken, mine.hasOut, mine.lastOutAt, mine.outNonce = p.upToken, p.hasOut, p.lastOutAt, p.outNonce
+		}
+		if len(entryLive) == 0 {
+			for _, p := range r.pend {
+				if !p.live && p.upToken != nil && r.sameEntry(p, in.name, in.cbp, in.mbf) {
+					mine.staleTok = p.upToken
+				}
+			}
+		}
 		r.pend = append(r.pend, mine)
 	}
 	mine.nonce = in.nonce
 	mine.expiry = now.Add(in.lifetime)
+	if maybeDead {
+		mine.maybe = true
+	}
 	// cache hit expectation: only knowable when nothing relevant is cached (weak) or the exact name is cached
 	cachedHit := false
 	if r.cacheOn && !retransmission {
@@ -389,6 +442,7 @@ func (r *verifRig) interest(in verifInterestIn, check string) {
 			for _, p := range r.pend {
 				if p.live && r.sameEntry(p, in.name, in.cbp, in.mbf) {
 					p.upToken = s.token
+					p.staleTok = nil
 				}
 			}
 		}
@@ -403,7 +457,7 @@ func (r *verifRig) interest(in verifInterestIn, check string) {
 	if check == "C02" {
 		if suppressed {
 			verifAssert(nInterests == 0, "C02/retransmission-inside-suppression-interval-is-aggregated")
-		} else if first && len(usable) > 0 {
+		} else if first && len(usable) > 0 && !maybeDead {
 			verifAssert(nInterests >= 1, "C02/first-interest-with-usable-next-hop-is-forwarded")
 		}
 		if nInterests > 0 && !r.multicast {
@@ -442,7 +496,7 @@ func (r *verifRig) genData(allowLocalhost bool) verifDataIn {
 	d.face = uint64(1 + verifChoice("dface", len(r.faces)))
 	d.fresh = time.Duration(verifRange("fresh", 0, 4000)) * time.Millisecond
 	kinds := 4
-	if r.check != "C01" {
+	if r.check != "C01" || r.lite {
 		kinds = 2
 	}
 	switch verifChoice("dtokkind", kinds) {
@@ -503,11 +557,27 @@ func (r *verifRig) data(d verifDataIn, check string) {
 			}
 		}
 	}
+	// pending Interests that joined a not yet reaped entry of an earlier Interest are reachable through its token
+	allowed := append([]*verifPending(nil), sat...)
+	if len(d.tok) == 6 {
+		for _, p := range r.pend {
+			if p.live && p.staleTok != nil && verifBytesSame(p.staleTok[2:6], d.tok[2:6]) {
+				allowed = append(allowed, p)
+				p.maybe = true
+			}
+		}
+	}
+	// the dead nonce list records the Data name with the nonces sent upstream for the satisfied entry
+	for _, p := range allowed {
+		if p.hasOut {
+			r.sentNonces = append(r.sentNonces, verifSentNonce{d.name, p.outNonce})
+		}
+	}
 	if check == "C01" {
 		for _, s := range sends {
 			verifAssert(s.isData, "C01/data-arrival-emits-only-data")
 			ok := false
-			for _, p := range sat {
+			for _, p := range allowed {
 				if p.face == s.face {
 					ok = true
 				}
@@ -515,7 +585,7 @@ func (r *verifRig) data(d verifDataIn, check string) {
 			verifAssert(ok, "C01/data-emitted-only-on-faces-with-a-satisfied-pending-interest")
 		}
 		for _, p := range sat {
-			if p.face == d.face {
+			if p.face == d.face || p.maybe {
 				continue // the arrival face itself: not required either way
 			}
 			if r.face(p.face).scope == defn.NonLocal && verifIsLocalhost(d.name) {
@@ -532,7 +602,7 @@ func (r *verifRig) data(d verifDataIn, check string) {
 		// exactly one copy per pending Interest per face
 		for _, f := range r.faces {
 			want := 0
-			for _, p := range sat {
+			for _, p := range allowed {
 				if p.face == f.id {
 					want++
 				}
@@ -596,3 +666,28 @@ func verifFwHistory(check string, allowLocalhost bool) {
 }
 
 func VerifC01_FwHistory() { verifFwHistory("C01", false) }
+
+// verifFwScript runs one of a list of fixed history shapes (I = Interest, D = Data, A = clock advance with
+// a PIT sweep), every parameter of every step symbolic as in verifFwHistory.  Shapes reach deeper histories
+// than the free enumeration can afford.
+func verifFwScript(check string, allowLocalhost bool, shapes []string) {
+	r := verifNewRig(allowLocalhost, check)
+	shape := shapes[verifChoice("shape", len(shapes))]
+	for _, k := range shape {
+		switch k {
+		case 'I':
+			r.interest(r.genInterest(allowLocalhost), check)
+		case 'D':
+			r.data(r.genData(allowLocalhost), check)
+		case 'A':
+			verifAdvance(int64(verifRange("adv", 0, 5000)) * int64(time.Millisecond))
+			r.th.pitCS.Update()
+		}
+	}
+}
+
+// longer Data-side histories: two pending Interests then expiry and/or Data, re-expression after satisfaction
+func VerifC01_Script_IIAD() { verifFwScript("C01", false, []string{"IIAD"}) }
+func VerifC01_Script_IIDD() { verifFwScript("C01", false, []string{"IIDD"}) }
+func VerifC01_Script_IDID() { verifFwScript("C01", false, []string{"IDID"}) }
+func VerifC01_Script_IAID() { verifFwScript("C01", false, []string{"IAID"}) }
